@@ -63,11 +63,12 @@ def boundaryL (es : List Extent) : Extent :=
   es.foldl (fun acc e => .ofT (Gen.boundaryStep acc.rmin acc.rmax acc.cmin acc.cmax e.rmin e.rmax e.cmin e.cmax))
     (.ofT Gen.boundaryInit)
 
-/-- `lentil.field._merge` for a list of fields whose bounding box is not the single origin pixel
-(that corner makes NumPy raise; `none` here) -/
+/-- `lentil.field._merge` for a list of array fields (no member is 0-d: the generated `_merge_shape` gets `all0d = 0`, so
+the shape is never `()`; on the single-origin-pixel box it is (1, 1) and every slice is the whole array, which is what
+the general slice formula gives there). The `Option` is kept for the callers; `mergeL_isSome` (Lemmas) shows it is `some`. -/
 def mergeL [Add K] [Zero K] (fs : List (Fld K)) : Option (Fld K) :=
   let b := boundaryL (fs.map Fld.extent)
-  match Gen.mergeShape b.rmin b.rmax b.cmin b.cmax with
+  match Gen.mergeShape b.rmin b.rmax b.cmin b.cmax 0 with
   | none => none
   | some shp =>
     let off := Gen.mergeOffset b.rmin b.rmax b.cmin b.cmax
